@@ -98,7 +98,7 @@ def _key(a):
     return tuple(out)
 
 
-def install_rotation_oracle(F, log, optimal=False):
+def install_rotation_oracle(F, log, optimal=False, rational=False):
     """Replace menpo's optimal_rotation_matrix by an interception wrapper.
     symbolic mode: returns an ARBITRARY orthogonal matrix (2-D: point on the unit circle, reflection allowed
     only when allow_mirror) that is a function of its arguments (memoised on the argument terms);
@@ -118,10 +118,17 @@ def install_rotation_oracle(F, log, optimal=False):
         key = ("orm", _key(source.points), _key(target.points), bool(allow_mirror))
         if key in c.memo:
             return c.memo[key].copy()
-        # every rotation except the half turn, without a side constraint: c=(1-m^2)/(1+m^2), s=2m/(1+m^2)
-        m = Sym.var(c.fresh_free_real("orm_m", -4, 4))
-        den = m * m + 1
-        cc, ss = (1 - m * m) / den, (2 * m) / den
+        if rational:
+            # every rotation except the half turn, without a side constraint (lets the concolic seeding pick
+            # a value): c=(1-m^2)/(1+m^2), s=2m/(1+m^2)
+            m = Sym.var(c.fresh_free_real("orm_m", -4, 4))
+            den = m * m + 1
+            cc, ss = (1 - m * m) / den, (2 * m) / den
+        else:
+            # every rotation: a point on the unit circle
+            zc, zs = c.fresh_real("orm_c"), c.fresh_real("orm_s")
+            c.defined.append(zc * zc + zs * zs == 1)
+            cc, ss = Sym.var(zc), Sym.var(zs)
         refl = bool(SymB(c.fresh_bool("orm_refl"))) if allow_mirror else False
         e = -1 if refl else 1
         R = np.array([[cc, ss * (-e)], [ss, cc * e]], dtype=object)
